@@ -11,7 +11,7 @@
           (colour=1 is not modelled: prints "diff <idx> unsupported=colour")
 
    Needs these identifiers in the Extraction command of Extract.v:
-     split_newlines get_opcodes grouped_opcodes pretty_diff_nocolor valid_script groups_of_script report_of_script unified_of_script read_report report_read_of *)
+     split_newlines get_opcodes grouped_opcodes pretty_diff_nocolor valid_script groups_of_script report_of_script unified_of_script read_report report_read_of groups_of_script_n unified_of_script_n report_of_script_n *)
 open Model
 open Util
 
@@ -65,12 +65,15 @@ let () =
     let na = List.length al and nb = List.length bl in
     let all = grouped_opcodes (nat_of_int (na + nb + 1)) al bl in
     let groups = grouped_opcodes (nat_of_int 3) al bl in
+    (* the number of context lines is presentation (C13_script_n_*: every statement holds for every n): the library's own
+       constant is handed over and used to group and print the library's script *)
+    let ctx = nat_of_int (int_of_string (get_or f "ctx" "3")) in
     let v, h =
       match List.assoc_opt "iall" f, List.assoc_opt "igroups" f with
       | Some ia, Some ig ->
         (try
            let script = script_of al bl (parse_groups ia) in
-           (b01 (valid_script al bl script), b01 (groups_of_script script = parse_groups ig))
+           (b01 (valid_script al bl script), b01 (groups_of_script_n ctx script = parse_groups ig))
          with Failure _ -> ("0", "0"))
       | _ -> ("*", "*") in
     Printf.printf "opcodes %d na=%d nb=%d valid=%s hunks=%s all=%s groups=%s\n" idx na nb v h (groups_s all) (groups_s groups));
@@ -95,7 +98,8 @@ let () =
           (try
              let al = split_newlines a and bl = split_newlines b in
              let script = script_of al bl (parse_groups ia) in
-             let report = report_of_script a b script name line in
+             let ctx = nat_of_int (int_of_string (get_or f "ctx" "3")) in
+             let report = report_of_script_n ctx a b script name line in
              let readable =
                match List.assoc_opt "ireport" f with
                | Some "*" | None -> "*"
@@ -103,7 +107,7 @@ let () =
                  let bytes_printed = if ir = "-" then [] else unhex ir in
                  if a = b then b01 (bytes_printed = [])
                  else if List.mem (n_of_int 10) name then "*"        (* outside the reader's hypothesis name_ok *)
-                 else b01 (read_report bytes_printed = Some (report_read_of (unified_of_script al bl script) name line)) in
+                 else b01 (read_report bytes_printed = Some (report_read_of (unified_of_script_n ctx al bl script) name line)) in
              (b01 (valid_script al bl script), readable, report)
            with Failure _ -> ("0", "0", own))
         | None -> ("*", "*", own) in
